@@ -33,7 +33,7 @@ CLAIMS = {
                      'reaction and CXSMILES templates against a reference reader written from the OpenSMILES subset and RDKit.',
                 note='Trusted: the tokenizer abstraction (justified by a syntactic dependency check on the current source; when the check fails the steps '
                      'count as bounded cases and only strings failing on the real function are reported), oracles/o03_refsmiles.py, RDKit as second '
-                     'opinion. 47 reader defect families (keyed reason / context / outcome) are recorded as known findings, 4 were repaired.' + U_NOTE,
+                     'opinion. 48 reader defect families (keyed reason / context / outcome) are recorded as known findings, 4 were repaired.' + U_NOTE,
                 technique='inductive invariant by abstract-state fixpoint over the real loop body (+ bounded differential reading)'),
     'C04': dict(level='other', engine='pysym+tables+frames',
                 text='calc_implicit / check_implicit are decided for EVERY element (118), charge -4..+4, radical flag and EVERY multiset of neighbour bonds: '
@@ -127,7 +127,7 @@ CLAIMS = {
                 '(fix_tautomers, keep_kekule, keep_charge ...); every rule on its own instantiated pattern and on two geminal instances sharing the wildcard '
                 'atom under foreign numbering; the documented input-output pairs of the repository test table.' + F_NOTE,
                 note='Trusted: oracles/o14_*.py (rule instantiation). Rule-driven rewriting through the matcher: no SMT obligation is within reach (DESIGN 5). '
-                     '25 rule / resonance / tautomer defect families are known findings.' + U_NOTE,
+                     '26 rule / resonance / tautomer defect families are known findings.' + U_NOTE,
                 technique='bounded relational contract checking (conservation, idempotence, equivariance) + frame analysis'),
     'C15': dict(level='exploration', engine='bounded+tables+pysym',
                 text=B_NOTE + 'role-order independence for 11 format specs, SMILES round trip of roles (8 written forms, reader options), exact dynamic labels '
@@ -161,7 +161,7 @@ CLAIMS = {
                      ' ' + B_NOTE + '35 observables per molecule compared across 5 interpreter processes with different PYTHONHASHSEED, first vs cached '
                      'evaluation, original vs copies made before/after caching.',
                 note='Trusted: subprocess isolation; declared attribute types of Element/Bond (their setters\' isinstance guards). Set-iteration tie-breaks '
-                     'depend on int values and insertion history only - bounded part.' + U_NOTE,
+                     'depend on int values and insertion history only - bounded part. 1 known finding (stale cis/trans label after add_bond on a cumulene), 3 repaired.' + U_NOTE,
                 technique='structural typing of hash inputs + frame analysis + bounded differential execution across processes and hash seeds'),
     'C20': dict(level='exploration', engine='bounded+tables+pysym',
                 text=B_NOTE + 'both bridge directions against RDKit per atom/bond and by canonical SMILES, inverse relations, renumbering and re-spelling, Kekule '
